@@ -138,6 +138,16 @@ def judge(case, res):
                 break        # parser messages quote grammar symbols, not input text
             if name in EXPECT.get(cls, ()) or name in case.get('expect', ()):
                 expected_seen = True
+            if name == 'DUPLICATE_DECL_DIFF_FILE' and case.get('extra_files'):
+                # "Redeclaration of N.  Previous declaration was on line L in file F.": reported in the file of the second declaration, F is the file of the first
+                here = os.path.basename(prefix.strip().rsplit(':', 2)[0]) if prefix.strip() else ''
+                there = os.path.basename(m.group(3))
+                first = case['detail'].split('/')[-1].replace('-first', '') + '.exp'
+                if m.group(1).lower() in alts:
+                    quoted_ok = True
+                if there not in case['extra_files'] or there == here or (first in case['extra_files'] and there != first):
+                    out.append(('wrong-file/DUPLICATE_DECL_DIFF_FILE', 'reported in %s, names %s as the file of the previous declaration; the first declaration is in %s' % (here, there, first)))
+                break
             for k, g in zip(kinds, m.groups()):
                 if k == 's':
                     a = g.strip().strip("`'\"").lower()
@@ -251,8 +261,9 @@ def main():
         chk.count(states=1, transitions=1)
         chk.cls(c['cls'] if c['kind'] != 'multi-file' else 'multi-file')
         v = judge(c, res)
+        if c.get('extra_files'):
+            v = [x for x in v if not x[0].startswith('not-attributed')]     # (attributed to one of the other files: judged by the specific rules)
         if c['kind'] == 'multi-file':
-            v = [x for x in v if not x[0].startswith('not-attributed')]
             named = [l for l in res['out'].split('\n') if c['planted'] in l]
             if not named:
                 v.append(('multi-file/not-reported', 'the undefined type %s in %s is not reported: %s' % (c['planted'], c['expect_file'], res['out'][-200:])))
